@@ -556,6 +556,7 @@ pub fn op_name(op: &Op) -> String {
         Op::Send { method, attrs, small_buf } => format!("Send(method {:#x}, {} app attrs{})", method, attrs.len(), if *small_buf { ", small buffer" } else { "" }),
         Op::Indication { method, attrs } => format!("Indication(method {:#x}, {} app attrs)", method, attrs.len()),
         Op::Advance(d) => format!("Advance({} ns)", d),
+        Op::AdvanceHalfRtos(m) => format!("AdvanceHalfRtos({})", m),
         Op::Timer(k) => format!("Timer({:?})", k),
         Op::Deliver(r) => format!("Deliver({:?})", r),
         Op::DeliverRaw(b) => format!("DeliverRaw({} bytes)", b.len()),
